@@ -309,3 +309,35 @@ Definition run_str_eh (mr mp : rmol) : tok :=
       L [L [tset (tinode_eh new) (gnodes J); tset tiedge (gedges J)]; tset tZ (hlist J); tmgraph (fst gs); tmgraph (snd gs);
          topt twmol (graph_to_wmol (fst gs)); topt twmol (graph_to_wmol (snd gs))]
   end.
+
+(** ** the remaining options of the two string functions
+    its_to_rsmi(explicit_hydrogen=True): graph_to_smi on the decomposed graphs, nothing is folded;
+    rsmi_to_its(core=True): the reaction centre of the ITS *)
+Definition its_to_graphs_opt (eh : bool) (J : its) : mgraph * mgraph :=
+  if eh then its_decompose J else its_to_graphs J.
+Definition rsmi_to_its_core (mr mp : rmol) : option its := option_map get_rc (rsmi_to_its_m mr mp).
+
+Definition run_str_opts (mr mp : rmol) : tok :=
+  match rsmi_to_its_m mr mp, rsmi_to_its_core mr mp with
+  | Some J, Some C =>
+      let gs := its_to_graphs_opt true J in
+      L [tits C; tmgraph (fst gs); tmgraph (snd gs); topt twmol (graph_to_wmol (fst gs)); topt twmol (graph_to_wmol (snd gs))]
+  | _, _ => L []
+  end.
+
+Definition its_to_wmols_opt (eh : bool) (J : its) : option (wmol * wmol) :=
+  match graph_to_wmol (fst (its_to_graphs_opt eh J)), graph_to_wmol (snd (its_to_graphs_opt eh J)) with
+  | Some a, Some b => Some (a, b)
+  | _, _ => None
+  end.
+Section RDKitOpt.
+  Variable str : Type.
+  Variable rd_write : wmol -> option str.
+  (** its_to_rsmi(its, explicit_hydrogen=eh) *)
+  Definition its_to_rsmi_s_opt (eh : bool) (J : its) : option (str * str) :=
+    match its_to_wmols_opt eh J with
+    | Some (wr, wp) => match rd_write wr, rd_write wp with Some a, Some b => Some (a, b) | _, _ => None end
+    | None => None
+    end.
+End RDKitOpt.
+Arguments its_to_rsmi_s_opt [str] rd_write eh J.
